@@ -11,9 +11,11 @@ import (
 
 	"golang.org/x/tools/go/cfg"
 	"golang.org/x/tools/go/packages"
+	"golang.org/x/tools/go/ssa"
 
 	"verif/checker/internal/core"
 	"verif/checker/internal/load"
+	"verif/checker/internal/sx"
 )
 
 // R-BOUNDS. Decided on the AST with go/cfg must-facts.
@@ -238,6 +240,7 @@ type boundsFn struct {
 	rel  string
 	name string
 	body *ast.BlockStmt
+	obj  *types.Func // the declared function (nil for function literals)
 }
 
 // accessPath canonicalises x, x.f, (*x).f, x[i].f with resolved objects.
@@ -532,6 +535,7 @@ func runBounds(c *core.Ctx, filter func(pkgRel, fn string) bool) {
 	var allBodies []*boundsFn
 	boundsHelperDecls = map[*types.Func]*boundsFn{}
 	boundsHelperParams = map[*types.Func]*ast.FieldList{}
+	boundsProgram = p
 	for _, pk := range p.Mod {
 		rel := strings.TrimPrefix(strings.TrimPrefix(pk.PkgPath, load.ModPath), "/")
 		if rel == "testutils" {
@@ -556,6 +560,7 @@ func runBounds(c *core.Ctx, filter func(pkgRel, fn string) bool) {
 				}
 				// the function body and every function literal inside get their own CFG
 				bfn := &boundsFn{pk: pk, rel: rel, name: name, body: fd.Body}
+				bfn.obj, _ = pk.TypesInfo.Defs[fd.Name].(*types.Func)
 				allBodies = append(allBodies, bfn)
 				if obj, ok := pk.TypesInfo.Defs[fd.Name].(*types.Func); ok && fd.Recv == nil {
 					boundsHelperDecls[obj] = bfn
@@ -906,6 +911,7 @@ func fieldMinLenInvariant(info *types.Info, x ast.Expr, need int, all []*boundsF
 		binfo := bf.pk.TypesInfo
 		var bad string
 		long := func(v ast.Expr, at ast.Node) bool { return exprMinLen(binfo, v, need, get, at, field) }
+		notOK := notOKZeroResults(bf)
 		ast.Inspect(bf.body, func(n ast.Node) bool {
 			if _, isLit := n.(*ast.FuncLit); isLit {
 				return false
@@ -915,6 +921,10 @@ func fieldMinLenInvariant(info *types.Info, x ast.Expr, need int, all []*boundsF
 			}
 			switch v := n.(type) {
 			case *ast.CompositeLit:
+				if notOK[v] {
+					// the zero value that accompanies `false` in a (value, ok) result: no caller reads it
+					return true
+				}
 				t := binfo.TypeOf(v)
 				if t == nil {
 					return true
@@ -1084,6 +1094,105 @@ func srcDirsElement(info *types.Info, parent map[ast.Node]ast.Node, ie *ast.Inde
 
 // ---------------------------------------------------------------------------
 // postconditions of (slice, ok) helpers
+
+// boundsProgram: the program under analysis (for the SSA side of notOKZeroResults); set by runBounds.
+var boundsProgram *load.Program
+
+// notOKZeroResults: the empty composite literals `T{}` of bf that are the first result of a `return T{}, false`
+// of a declared (value, bool) function, provided every caller in the module reads the first result only where
+// the second is established true (SSA dominance at every call site; a function used as a value disqualifies).
+func notOKZeroResults(bf *boundsFn) map[*ast.CompositeLit]bool {
+	out := map[*ast.CompositeLit]bool{}
+	if bf.obj == nil || boundsProgram == nil {
+		return out
+	}
+	sig, ok := bf.obj.Type().(*types.Signature)
+	if !ok || sig.Results().Len() != 2 || !isBoolT(sig.Results().At(1).Type()) {
+		return out
+	}
+	var cands []*ast.CompositeLit
+	ast.Inspect(bf.body, func(n ast.Node) bool {
+		if _, isLit := n.(*ast.FuncLit); isLit {
+			return false
+		}
+		ret, isRet := n.(*ast.ReturnStmt)
+		if !isRet || len(ret.Results) != 2 {
+			return true
+		}
+		cl, isCL := ast.Unparen(ret.Results[0]).(*ast.CompositeLit)
+		id, isID := ast.Unparen(ret.Results[1]).(*ast.Ident)
+		if isCL && len(cl.Elts) == 0 && isID && id.Name == "false" {
+			cands = append(cands, cl)
+		}
+		return true
+	})
+	if len(cands) == 0 {
+		return out
+	}
+	fn := boundsProgram.SSA.FuncValue(bf.obj)
+	if fn == nil {
+		return out
+	}
+	sites := 0
+	okAll := true
+	for _, caller := range boundsProgram.ModFuncs() {
+		sx.EachInstr(caller, func(in ssa.Instruction) {
+			for _, op := range in.Operands(nil) {
+				if *op != ssa.Value(fn) {
+					continue
+				}
+				call, isCall := in.(*ssa.Call)
+				if !isCall || call.Call.Value != ssa.Value(fn) {
+					okAll = false // used as a value, deferred, ...
+					continue
+				}
+				sites++
+				var first, second *ssa.Extract
+				for _, r := range *call.Referrers() {
+					if ex, isEx := r.(*ssa.Extract); isEx {
+						if ex.Index == 0 {
+							first = ex
+						} else {
+							second = ex
+						}
+					}
+				}
+				if first == nil {
+					continue
+				}
+				if second == nil {
+					okAll = false
+					continue
+				}
+				for _, use := range *first.Referrers() {
+					if _, isDbg := use.(*ssa.DebugRef); isDbg {
+						continue
+					}
+					blk := use.Block()
+					if ph, isPhi := use.(*ssa.Phi); isPhi {
+						// the value enters a phi on particular edges: the guard must hold on those edges
+						for i, e := range ph.Edges {
+							if e == ssa.Value(first) && !hasLit(append(dominatingLits(ph.Block().Preds[i]), edgeLits(ph.Block().Preds[i], ph.Block())...), second, false) {
+								okAll = false
+							}
+						}
+						continue
+					}
+					if !hasLit(dominatingLits(blk), second, false) {
+						okAll = false
+					}
+				}
+			}
+		})
+	}
+	if !okAll || sites == 0 {
+		return out
+	}
+	for _, cl := range cands {
+		out[cl] = true
+	}
+	return out
+}
 
 // boundsHelperDecls maps the module's function objects to their declarations; filled by runBounds.
 var boundsHelperDecls = map[*types.Func]*boundsFn{}
